@@ -5,6 +5,7 @@ import SJ.Drv.C10
 import SJ.Drv.C12
 import SJ.Drv.C13
 import SJ.Drv.C19
+import SJ.Drv.C20
 import SJ.Drv.C05
 import SJ.Drv.C03
 import SJ.Drv.C17
@@ -26,6 +27,7 @@ def allHandlers : List (String × Handler) :=
     C12.handlers,
     C13.handlers,
     C19.handlers,
+    C20.handlers,
     C05.handlers,
     C03.handlers,
     C17.handlers,
